@@ -187,9 +187,9 @@ func InjectDefect(src *choice.Src, c *Cfg) (string, YMut) {
 		}
 		return cs[src.Draw("defect.svc", len(cs))]
 	}
-	k := src.Draw("defect.kind", 33)
-	if k >= 29 {
-		k = (k - 29) % 2 // dangling references meet the --ignore-missing-* flags: twice the weight
+	k := src.Draw("defect.kind", 35)
+	if k >= 31 {
+		k = (k - 31) % 2 // dangling references meet the --ignore-missing-* flags: twice the weight
 	}
 	switch k {
 	case 0:
@@ -290,6 +290,19 @@ func InjectDefect(src *choice.Src, c *Cfg) (string, YMut) {
 		return oddScalar(src, c, ensureSvc()), nil
 	case 27, 28:
 		return typoRefs(src, c, ensureSvc()), nil
+	case 29, 30:
+		// names that pass the grammar of identifiers but are Go keywords: validation and compilation succeed,
+		// the rendered source is not Go (the failure comes from the formatter, the last step before the write)
+		kw := choice.Pick(src, "kw", []string{"func", "type", "go", "select", "range", "chan"})
+		switch src.Draw("kw.where", 3) {
+		case 0:
+			c.Meta.Pkg = &kw
+		case 1:
+			c.Meta.CType = &kw
+		case 2:
+			c.Meta.CCtor = &kw
+		}
+		return "keyword-name", nil
 	}
 	return "", nil
 }
